@@ -62,10 +62,10 @@ DEGREE_GUARDS = {
 }
 
 PROP_GROUPS = {
-    'C01': (['elementary', 'helpers'], ('O3', 'O4')),
-    'C02': (['arith'], ('O3', 'O4')),
-    'C07': (['linalg'], ('O3', 'O4')),
-    'C08': (['factor'], ('O3', 'O4')),
+    'C01': (['elementary', 'helpers'], ('O3', 'O4', 'CTRL', 'RESHAPE')),
+    'C02': (['arith'], ('O3', 'O4', 'CTRL', 'RESHAPE')),
+    'C07': (['linalg', 'det'], ('O3', 'O4', 'CTRL', 'RESHAPE')),
+    'C08': (['factor'], ('O3', 'O4', 'CTRL', 'RESHAPE')),
     'C12': (['elementary', 'helpers', 'arith', 'linalg', 'factor', 'maps'], ('O1', 'O2', 'C12.D')),
     'C13': (['maps'], ('O1', 'O3')),
 }
@@ -120,7 +120,7 @@ def rule_grade(prop):
         res = analyse_all(ctx)
         n_k = 0
         for name, (grp, ka) in sorted(res.items()):
-            if grp not in groups:
+            if grp not in groups and not ('det' in groups and name == 'UTPM.lu2'):
                 continue
             n_k += 1
             fi = ka.fi
@@ -131,6 +131,8 @@ def rule_grade(prop):
                               '[%s] %s: %s' % (i.ob, fi.qualname, i.msg), fi.file, getattr(i.node, 'lineno', fi.lineno),
                               extra={'witness': {k: str(v) for k, v in (i.witness or {}).items()}}))
             for node, why in ka.unknown:
+                if 'O3' not in obs and ('inhomogeneous' in why or 'weights' in why):
+                    continue        # a homogeneity failure is decided (and reported) under the properties that own O3
                 r.unknown(fi.site(node), why)
             # obligations: count those of this analysis (all kinds are needed to reach a verdict)
             ok = ka.discharged
